@@ -32,7 +32,17 @@
 (* accumulated sum is an integer.  Without PATTERN the intensity of a      *)
 (* pixel is VALS-value + VSHIFT, so that negative pixel values and a       *)
 (* negative THR are in scope (VSHIFT = -2, THR = -2: blobs made of -1, 0,  *)
-(* 1).                                                                     *)
+(* 1).  The alphabet value NANV (PATTERN = FALSE) stands for a pixel that  *)
+(* is not a number (dead pixel, 0/0 of a flood field): its intensity is    *)
+(* the constant NaN, and Above(x) == x # NaN /\ x > THR is the only        *)
+(* membership test of the labelling (Label2D), of the independent          *)
+(* definition (Vox) and of the invariants: NaN > t is false for every t,   *)
+(* so such a pixel is background, joins nothing and adds neither a pixel   *)
+(* nor intensity.  NaN is the integer 1000, above every threshold and      *)
+(* intensity of the scopes: a labelling that let it through would be       *)
+(* caught by Conserved / KernelPost / PrefixOK / DoneOK.  The harness      *)
+(* replays these frames with float nan (cfgs nan_2x3_f1, nan_2x3_f2,       *)
+(* nan_1x5_f3; every other cfg has NANV <- Neg1: no such value).           *)
 (*                                                                         *)
 (* MAXFIX selects the rule for the maximum pixel of a blob:                *)
 (*   FALSE  the code as pinned: blobproperties zeroes the row, add_pixel   *)
@@ -54,7 +64,11 @@
 (* omega (narrowed to float32 by the f2py wrapper; sums then compared with *)
 (* a rounding-error bound instead of exactly), image shapes up to 2048     *)
 (* wide / tall, the flip and spatial-correction columns, the 2-D .spt      *)
-(* output (rows = state `res` after Peaksearch).                           *)
+(* output (rows = state `res` after Peaksearch).  Also outside: the SIZE   *)
+(* of a frame's label table (connectedpixels' disjoint set doubles at      *)
+(* 16384, 32768, ... provisional labels; Label2D is declarative) - the     *)
+(* harness drives frames with up to 40000 blobs and judges them by the     *)
+(* independent definition alone (scipy.ndimage.label, harness/c12_big.py). *)
 (*                                                                         *)
 (* VARIABLES                                                               *)
 (*   frames            history: the frames given to peaksearch so far      *)
@@ -129,7 +143,9 @@
 (* frame), 2x2 x 2 frames over 0..3 with threshold 1 and a negative omega  *)
 (* step; 1x3 and 1x2 x 4 frames at omega 0,2,2,1 (cfgs 1x3_f4_om,          *)
 (* 1x2_f4_om); 1x3 and 1x2 x 2 frames over -2..1 with threshold -2 (cfgs   *)
-(* negthr, negthr_asis, negthr_fix and the same with suffix _q);           *)
+(* negthr, negthr_asis, negthr_fix and the same with suffix _q); 2x3 x 2   *)
+(* frames over {2, NaN}, 2x3 x 1 frame over {0, 2, NaN}, 1x5 x 3 frames    *)
+(* over {2, NaN}, threshold 1 (cfgs nan_2x3_f2, nan_2x3_f1, nan_1x5_f3);   *)
 (* simulation (SimSpec): 3x3 and 4x4 x 4 frames over 0..3, threshold 2.   *)
 (* All sums stay far below 2^31.                                           *)
 (* TLCEval(...) only forces TLC to evaluate a lazily represented set or    *)
@@ -146,12 +162,14 @@ CONSTANTS NS, NF,      \* frame shape (slow, fast)
           OMSEQ,       \* ... unless this sequence is not empty: then omega of frame k is OMSEQ[k]
           VSHIFT,      \* added to the pixel alphabet when PATTERN = FALSE (negative intensities)
           MAXFIX,      \* FALSE: max pixel rule of the pinned code; TRUE: first pixel initialises the maximum
+          NANV,        \* the alphabet value that stands for a not-a-number pixel (PATTERN = FALSE; NANV <- Neg1: none)
           EMITSTEPS    \* TRUE: print every observable state (EmitStep)
 
 ASSUME /\ NS \in Nat \ {0} /\ NF \in Nat \ {0} /\ MAXFR \in Nat \ {0}
        /\ VALS \subseteq 0..3 /\ THR \in Int /\ VSHIFT \in Int /\ OMSTEP \in Int
        /\ PATTERN \in BOOLEAN /\ EMITSTEPS \in BOOLEAN /\ MAXFIX \in BOOLEAN
-       /\ (PATTERN => VSHIFT = 0 /\ THR >= 0)
+       /\ (PATTERN => VSHIFT = 0 /\ THR >= 0 /\ NANV \notin VALS)
+       /\ NANV \in Int
        /\ (OMSEQ # <<>> => Len(OMSEQ) >= MAXFR /\ \A k \in DOMAIN OMSEQ : OMSEQ[k] \in Int)
 
 VARIABLES frames, pc, blim, lastbl, npk, lastnp, res, lastres,
@@ -175,6 +193,13 @@ Abs(x) == IF x < 0 THEN -x ELSE x
 Max2(a, b) == IF a > b THEN a ELSE b
 Min2(a, b) == IF a < b THEN a ELSE b
 Zeros == [p \in Pix |-> 0]
+
+\* A not-a-number pixel (dead pixel, 0/0 of a flood field) is written NaN in a frame.  The statement speaks of
+\* "above-threshold voxels": NaN > t is false for every t, so a NaN pixel is background - it belongs to no blob,
+\* joins nothing and adds neither a pixel nor intensity.  NaN is an integer far above every threshold and every
+\* intensity of the scopes: a model (or a code) that lets it through `> THR` sums it and breaks Conserved / DoneOK.
+NaN == 1000
+Above(x) == x # NaN /\ x > THR
 
 -----------------------------------------------------------------------------
 (* property rows: blobs.h columns s_1 .. bb_mn_o *)
@@ -227,7 +252,7 @@ Grow2(A, S) == LET N == TLCEval(S \cup {q \in A : \E p \in S : Adj2(p, q)})
                IN IF N = S THEN S ELSE Grow2(A, N)
 
 Label2D(img) ==
-  LET A      == TLCEval({p \in Pix : img[p] > THR})
+  LET A      == TLCEval({p \in Pix : Above(img[p])})
       first  == TLCEval([p \in A |-> Min(Grow2(A, {p}))])
       firsts == {first[p] : p \in A}
   IN [p \in Pix |-> IF p \in A THEN Cardinality({x \in firsts : x <= first[p]}) ELSE 0]
@@ -271,7 +296,7 @@ MakeUnion(S, r1, r2) ==
 -----------------------------------------------------------------------------
 (* the independent definition: 3-D components *)
 
-Vox(frs) == TLCEval({v \in (1..Len(frs)) \X Pix : frs[v[1]][v[2]] > THR})
+Vox(frs) == TLCEval({v \in (1..Len(frs)) \X Pix : Above(frs[v[1]][v[2]])})
 Adj3(u, v) == \/ (u[1] = v[1] /\ Adj2(u[2], v[2]))
               \/ (u[2] = v[2] /\ Abs(u[1] - v[1]) = 1)
 
@@ -363,7 +388,8 @@ Init ==
   /\ bad = {}
   /\ pend = <<>>
 
-Intensity(v, p, k) == IF PATTERN THEN (IF v = 0 THEN 0 ELSE 1 + ((v + p + k) % 3)) ELSE v + VSHIFT
+Intensity(v, p, k) == IF PATTERN THEN (IF v = 0 THEN 0 ELSE 1 + ((v + p + k) % 3))
+                      ELSE IF v = NANV THEN NaN ELSE v + VSHIFT
 
 \* labelimage.peaksearch(data, threshold, omega)
 DoPeaksearch(raw) ==
@@ -658,7 +684,7 @@ KernelPost ==
   pc = "output" =>
     /\ {blim[p] : p \in Pix} \ {0} = 1..npk
     /\ \A r \in 1..Len(res) : IF r <= npk THEN res[r].n >= 1 ELSE res[r] = ZeroRow
-    /\ \A p \in Pix : (blim[p] > 0) = (frames[Len(frames)][p] > THR)
+    /\ \A p \in Pix : (blim[p] > 0) = Above(frames[Len(frames)][p])
 
 \* emitted + open rows are the components of the frames seen so far, and lastbl labels every
 \* pixel of the last frame with the row of its component (what the relabel step is for)
@@ -672,7 +698,7 @@ PrefixOKX(asis) ==
                                      /\ IF OMSEQ = <<>>      \* monotonic: the newest angle is an end of the range
                                         THEN lastres[r].bxo = Omega(K) \/ lastres[r].bno = Omega(K)
                                         ELSE lastres[r].bno <= Omega(K) /\ Omega(K) <= lastres[r].bxo
-       /\ \A p \in Pix : (lastbl[p] > 0) = (frames[K][p] > THR)
+       /\ \A p \in Pix : (lastbl[p] > 0) = Above(frames[K][p])
        /\ \A p \in Pix : lastbl[p] > 0 =>
              /\ lastbl[p] \in DOMAIN lastres
              /\ \E pr \in tab : <<K, p>> \in pr[1] /\ AsIsCore(pr[2], asis) = Core(lastres[lastbl[p]])
